@@ -13,6 +13,11 @@
 //	   features added with AddFeature in dependency order (upper: every menu
 //	   choice, valid by itself or not, whose additions keep the union valid).
 //
+//	H: the same MutableOverlayWorld reached through every short edit history
+//	   (AddFeature re-adding / replacing / adding, plain and searchable AddTag
+//	   and RemoveTag) over a base whose features reference each other
+//	   (history.go); the reference is the Spec after the same edits.
+//
 // Oracle: the reference world of the union with upper precedence (base
 // features not in upper + upper features): HasFeatureWithID, FindFeatureByID
 // (tags with kinds, members, and geometry where the layers leave no doubt —
@@ -159,6 +164,7 @@ func queries() []wk.RQ {
 type finfo struct {
 	f     *wk.FSpec
 	def   string // the whole definition (FSpec.String): key of the geometry cache
+	gdef  string // the definition without tags: what the geometry of a feature over this one depends on
 	ver   string // FeatureString without resolved geometry: id, tags with kinds (incl. point and path tags)
 	geo   string // with geometry, for features whose geometry does not depend on other features ("" otherwise)
 	loc   string
@@ -175,7 +181,9 @@ func newWinfo(spec wk.Spec, qs []wk.RQ) *winfo {
 	wi := &winfo{ids: spec.IDs(), byID: map[b6.FeatureID]*finfo{}}
 	for i := range spec {
 		f := &spec[i]
-		fi := &finfo{f: f, def: f.String(), ver: ref.FeatureString(f.ID, false, false), loc: "err", match: make([]bool, len(qs))}
+		untagged := *f
+		untagged.Tags = nil
+		fi := &finfo{f: f, def: f.String(), gdef: untagged.String(), ver: ref.FeatureString(f.ID, false, false), loc: "err", match: make([]bool, len(qs))}
 		if f.Kind == wk.KPoint {
 			fi.loc = f.LL.String()
 		}
@@ -272,7 +280,7 @@ func expectCore(layer func(b6.FeatureID) *finfo, inUpper func(b6.FeatureID) bool
 		key := fi.def
 		for _, x := range depIDs {
 			if g := layer(x); g != nil {
-				key += "|" + g.def
+				key += "|" + g.gdef
 			} else {
 				key += "|missing " + x.String()
 			}
@@ -432,33 +440,43 @@ func classify(kind, sec, got, want string, layerOf func(b6.FeatureID) string) st
 		wantV[idOf(v)] = v
 	}
 	seen := map[string]bool{}
-	dup, extra, wrongVersion, missing := false, false, false, false
+	// the first ID (in result order; for a missing one, in expected order) showing each symptom
+	dup, extra, wrongVersion, missing := "", "", "", ""
 	for _, v := range g {
 		id := idOf(v)
-		if seen[id] {
-			dup = true
+		if seen[id] && dup == "" {
+			dup = id
 		}
 		seen[id] = true
 		if wv, ok := wantV[id]; !ok {
-			extra = true
-		} else if wv != v {
-			wrongVersion = true
+			if extra == "" {
+				extra = id
+			}
+		} else if wv != v && wrongVersion == "" {
+			wrongVersion = id
 		}
 	}
-	for id := range wantV {
-		if !seen[id] {
-			missing = true
+	for _, v := range w {
+		if id := idOf(v); !seen[id] && missing == "" {
+			missing = id
 		}
+	}
+	// histories: the class also names what the history did to the ID concerned
+	about := func(id string) string {
+		if kind != "H" {
+			return ""
+		}
+		return ":" + layerOf(b6.FeatureIDFromString(id))
 	}
 	switch {
-	case dup:
-		return kind + ":" + class + ":id-returned-twice"
-	case wrongVersion:
-		return kind + ":" + class + ":shows-shadowed-version"
-	case extra:
-		return kind + ":" + class + ":returns-feature-whose-current-version-does-not-match"
-	case missing:
-		return kind + ":" + class + ":misses-feature"
+	case dup != "":
+		return kind + ":" + class + ":id-returned-twice" + about(dup)
+	case wrongVersion != "":
+		return kind + ":" + class + ":shows-shadowed-version" + about(wrongVersion)
+	case extra != "":
+		return kind + ":" + class + ":returns-feature-whose-current-version-does-not-match" + about(extra)
+	case missing != "":
+		return kind + ":" + class + ":misses-feature" + about(missing)
 	}
 	return kind + ":" + class + ":wrong-order"
 }
@@ -490,6 +508,9 @@ func compare(r *kit.Result, kind string, got, want wk.Dump, layerOf func(b6.Feat
 		g, ok := got[k]
 		if !ok {
 			g = "MISSING-SECTION"
+		}
+		if k == "each-geom" && got["each"] != want["each"] {
+			continue // the enumeration is already reported
 		}
 		if g != want[k] {
 			c := classify(kind, k, g, want[k], layerOf)
@@ -779,14 +800,16 @@ func main() {
 	kit.Main(&kit.Check{
 		ID: "C16", Level: "exploration",
 		Rule: "case = (ID scheme, base world); inside, every upper world of the same menu under both layerings (S static overlay of two basic worlds, M mutable overlay with the upper features added). Worlds = choices of one variant per slot of worldkit.FeatureMenu (+ a moved, re-tagged first point). " +
-			"Non-trivial pair = some ID present in both layers with different versions. Oracle: reference world of (base minus upper IDs) + upper: has / feature (tags with kinds, members, point references; resolved geometry unless a base-only path or area depends on an ID the upper layer replaces) / location for 14 present and absent IDs, FindFeatures for the tag-query menu as the ID-ordered list of the union's versions, EachFeature as the multiset of the union's versions.",
+			"Then kind H (history.go): case = (ID scheme, base world[, first operation]); inside, every history of 1..2 (1..3 on the chain bases) operations on a MutableOverlayWorld over the base from the alphabet recomputed in the reference world after every step: AddFeature of a menu version of a menu ID (re-add of the held version / replacement by another version / addition of a missing ID; point, path, area, relation; in scope when the whole world stays valid), and for every held feature AddTag(name=h) [plain], RemoveTag(first plain key held), AddTag(#amenity=cafe) [searchable], RemoveTag(first #/@ key held); the world after the history is judged against the reference Spec after the same edits, upper layer = the IDs AddFeature was called with. Pairs first, then histories by depth and base size. " +
+			"Non-trivial pair = some ID present in both layers with different versions; non-trivial history = it changes the reference world. Oracle: reference world of (base minus upper IDs) + upper: has / feature (tags with kinds, members, point references; resolved geometry unless a base-only path or area depends on an ID the upper layer replaces) / location for 14 present and absent IDs, FindFeatures for the tag-query menu as the ID-ordered list of the union's versions, EachFeature as the multiset of the union's versions (H: also the multiset of the enumerated features' resolved geometry where it is judged).",
 		Assumptions: []string{
 			"resolved coordinates of a base-only path/area whose points/paths are replaced in the upper layer are not compared (the statement's two sentences disagree there); its tags, references and members are",
 			"M: only upper layers whose every AddFeature (dependency order) keeps the union valid (worldkit.ValidSubset); rejected valid additions are counted, not alarmed (C13's subject)",
 			"references and traversal are outside the statement (lookup, search, enumeration, locations)",
+			"H: a feature the history only re-tagged, or that was copied into the upper layer because something it references was replaced, counts as base-only for the geometry rule above; an edit the reference accepts but the world rejects is counted, not alarmed (C12/C13's subject), and its history is not judged",
 		},
-		QuickDeadline:    300e9,
-		ThoroughDeadline: 25 * 60e9,
+		QuickDeadline:    600e9,
+		ThoroughDeadline: 60 * 60e9,
 		CaseTimeout:      120e9,
 		Chunk:            2,
 		WorkerEnv:        []string{"GOMAXPROCS=2", "GOGC=400"},
